@@ -8,7 +8,9 @@ package c04
 import (
 	"context"
 	"encoding/binary"
+	"errors"
 	"fmt"
+	"io"
 	"sort"
 	"strings"
 	"testing"
@@ -60,6 +62,7 @@ type connCase struct {
 	MetadataMax int    `json:"metadata_max"`
 	// CreateMax / DeleteMax: highest CreateTopics / DeleteTopics version the broker advertises (0 in old cases = the fake's default)
 	CreateMax int      `json:"create_max,omitempty"`
+	Aborted   int      `json:"aborted,omitempty"` // aborted transactions the leader reports for t0/1 to read_committed fetches
 	DeleteMax int      `json:"delete_max,omitempty"`
 	Leader    bool     `json:"leader"` // DialLeader (conn bound to t0/1) or plain Dial
 	Chunk     int      `json:"chunk"`  // >0: the broker delivers fetch responses in reads of at most this many bytes
@@ -204,6 +207,14 @@ func runConnRequests(tb ev.TB, c connCase) (labels []string, nontrivial bool) {
 			Headers: []refcodec.Header{{Key: "h", Value: []byte(strings.Repeat("y", 62+i))}}})
 	}
 	cl.AppendBatches("t0", 1, refcodec.MakeBatchV2(recs[:10], 0), refcodec.MakeBatchV2(recs[10:], 0))
+	if c.Aborted > 0 {
+		// read_committed fetches are answered with a list of aborted transactions in front of the records
+		cl.Lock()
+		for i := 0; i < c.Aborted; i++ {
+			cl.PartitionUnlocked("t0", 1).Aborted = append(cl.PartitionUnlocked("t0", 1).Aborted, [2]int64{int64(7000 + i), int64(i)})
+		}
+		cl.Unlock()
+	}
 	if c.Chunk > 0 {
 		cl.SetHook(func(cl *fakecluster.Cluster, r *fakecluster.Request) *fakecluster.Action {
 			if r.ApiKey == 1 {
@@ -275,11 +286,22 @@ func runConnRequests(tb ev.TB, c connCase) (labels []string, nontrivial bool) {
 		case "readBatch":
 			b := conn.ReadBatchWith(kafka.ReadBatchConfig{MinBytes: op.MinBytes, MaxBytes: op.MaxBytes, IsolationLevel: kafka.IsolationLevel(op.Isolation), MaxWait: time.Duration(op.MaxWaitMs) * time.Millisecond})
 			// the response side of the hand-written codec: what is decoded equals what the broker encoded
+			startedAt, decoded := curOffset, 0
 			for {
 				m, err := b.ReadMessage()
 				if err != nil {
+					if decoded == 0 && c.Leader && startedAt >= 0 && startedAt < int64(len(recs)) && op.MaxBytes >= 1<<20 && !errors.Is(err, io.EOF) {
+						// records are stored at the position, the limits are generous, the broker answered: a well-formed
+						// response has to decode
+						var ke kafka.Error
+						if !errors.As(err, &ke) {
+							fail("conn-resp/fetch/rejected", "op %d: ReadBatchWith at offset %d (isolation %d, %d aborted transactions listed) could not read the well-formed fetch response: %v", oi, startedAt, op.Isolation, c.Aborted, err)
+							return
+						}
+					}
 					break
 				}
+				decoded++
 				if m.Offset < 0 {
 					fail("conn-resp/fetch/offset", "op %d: ReadMessage returned offset %d", oi, m.Offset)
 					return
@@ -631,6 +653,7 @@ func TestConnRequests(t *testing.T) {
 			ProduceMax:  rapid.SampledFrom([]int{2, 3, 6, 7, 9}).Draw(t, "produceMax"),
 			FetchMax:    rapid.SampledFrom([]int{2, 4, 5, 9, 10, 11}).Draw(t, "fetchMax"),
 			MetadataMax: rapid.SampledFrom([]int{1, 5, 6, 9}).Draw(t, "metadataMax"),
+			Aborted:     rapid.SampledFrom([]int{0, 0, 1, 2, 5}).Draw(t, "aborted"),
 			CreateMax:   1 + rapid.SampledFrom([]int{0, 1, 2, 3, 4}).Draw(t, "createMax"), // stored +1: the Conn implements v0..v2
 			DeleteMax:   1 + rapid.SampledFrom([]int{0, 1, 3}).Draw(t, "deleteMax"),
 			Leader:      rapid.IntRange(0, 3).Draw(t, "leader") != 0,
